@@ -57,10 +57,40 @@ theorem result_is_fresh {α} (s : Store α) (f : α → α → α) (a b : Operan
         simp [this]
       · simp [Store.get?]
 
+/-- **The result field carries numpy's dtype.** For every dtype `n` a field operator can produce, `dtype_to_str` (as
+    regenerated from the source) names the numpy type `n` exactly `n` — so `NumericMemField(session, dtype_to_str(r.dtype))`
+    is declared with the dtype of numpy's result `r`, never a folded or widened one. -/
+theorem dtype_to_str_faithful : ∀ n ∈ resultDtypes, dtypeToStr (npSymbol n) = some n := by decide +kernel
+
+/-- no two rows of the chain answer for the same numpy type, and no two numpy types get the same name: the chain is a
+    bijection between the types it tests and the names it returns (first-match order is therefore immaterial) -/
+theorem dtype_to_str_injective :
+    (Gen.dtypeToStrRows.map (·.1)).Nodup ∧ (Gen.dtypeToStrRows.map (·.2)).Nodup := by decide +kernel
+
+/-- every answer is a row of the chain; a dtype outside the chain falls through to the final `raise ValueError` (it is
+    refused, not silently renamed); a dtype already given as a string is passed through unchanged -/
+theorem dtype_to_str_total_or_raises (ty : String) :
+    ((∃ n, dtypeToStr ty = some n ∧ (ty, n) ∈ Gen.dtypeToStrRows) ∨ dtypeToStr ty = none) ∧
+      Gen.dtypeToStrRaises = "ValueError" ∧ Gen.dtypeToStrPassthrough = true := by
+  refine ⟨?_, by decide, by decide⟩
+  unfold dtypeToStr
+  cases h : Gen.dtypeToStrRows.find? (fun r => r.1 == ty) with
+  | none => right; rfl
+  | some r =>
+    left
+    refine ⟨r.2, rfl, ?_⟩
+    have hm := List.mem_of_find?_eq_some h
+    have he := List.find?_some h
+    simp only [beq_iff_eq] at he
+    rw [← he]; exact hm
+
 -- non-vacuity: the table is non-empty and contains the interesting reflected rows
 example : allPairs.length = 128 := by decide +kernel
 example : ("TimestampField", "__rdivmod__") ∈ allPairs := by decide +kernel
 example : eval (fun s (xs : List Int) => (s, xs)) "NumericField" "__rfloordiv__" 7 2 = some ("operator.floordiv", [2, 7]) := by
   decide +kernel
+
+example : dtypeToStr "np.uint16" = some "uint16" := by decide +kernel
+example : dtypeToStr "np.float16" = none := by decide +kernel
 
 end Exetera.Props.C13
